@@ -13,6 +13,7 @@ Python strings for text.
  10 deprecation            -> [1, text, doc] | [0] (ValueError)  + rendered html of the real reST pipeline
  13 html2stan(encode text) -> as 8, the re-parse path of signatures / colourised values
  14 node2stan over a docutils inline/Text node holding text with classes -> [1, html, stan] | [0]
+ 16 python source of a default value -> [1, stan of format_signature(def f(a=<expr>, *, k=<expr>))] | [0, '(...)']
  15 node2stan(children of a reference: [[0, text] Text | [1, text, classes] inline ...]) -> [1, stan] | [0]
 """
 import ast, json, re, sys
@@ -253,6 +254,18 @@ def run_case(case):
         except UnicodeEncodeError:
             return [3]
         return [1, canon_stan(st)]
+    if fn == 16:
+        # the signature of  def f(a=<expr>, *, k=<expr>) -> None  as pages.format_signature renders it
+        from pydoctor.test.test_astbuilder import fromText
+        from pydoctor.templatewriter import pages
+        sysm = model.System()
+        sysm.options.docformat = 'plaintext'
+        res = []
+        for expr in arg[:2]:      # [the expression, the same expression with a harmless payload, ...]
+            mod = fromText('def f(a=%s, *, k=%s) -> None:\n    pass\n' % (expr, expr), modname='c10sig', system=sysm)
+            sig = pages.format_signature(mod.contents['f'])
+            res.append([0, sig] if isinstance(sig, str) else [1, canon_stan(sig)])
+        return res
     raise ValueError('unknown fn %r' % fn)
 
 
